@@ -31,7 +31,8 @@ MANIFEST = {
             "passes through the delete-output call, the writer/reader format constants agree, D5 the per-file "
             "code of main's loop does not write a global that the next file's processing reads as it finds it, "
             "D6 the output file is created and truncated when opened and D7 a stream-decrypting function returns "
-            "success only along paths through the tag comparison; decided by exhaustive exploration of a "
+            "success only along paths through the tag comparison, D8 the library chain behind ascon_random reports a "
+            "failing system source, D9 asconsum -c never prints OK for a file whose fopen failed; decided by exhaustive exploration of a "
             "finite abstraction of each function and by effect summaries; asconsum's fopen/ferror error counters "
             "and all run-time behaviours (round trip for every content, tamper detection, real I/O faults) are "
             "not decided",
@@ -73,7 +74,7 @@ def run(rep, tier):
     rep.rule("C19.D3", "a failure after the output file was opened passes through the deletion of that file")
     build = repo.configure(repo.DEFAULT)
     for group in ("asconcrypt", "asconsum"):
-        lr = repo.lower(build, group=group, level="O0")
+        lr = repo.lower(build, group=group, level="O0", scev=True)
         m = ir.Module.load(lr.json)
         rep.configs.append(group)
         rep.units.update(lr.units)
@@ -89,6 +90,8 @@ def run(rep, tier):
             lri = repo.lower(build, group=group, level="O0", inline_internal=True)
             rule_format(rep, ir.Module.load(lri.json))
         rule_loop_state(rep, m, group, build)
+        if group == "asconsum":
+            rule_ok_only_when_read(rep, m)
         if group == "asconcrypt":
             rule_open_flags(rep, m, build)
             rule_tag_before_success(rep, ir.Module.load(lri.json), fail)
@@ -785,7 +788,7 @@ def rule_tag_before_success(rep, m, fail):
         raise repo.AnalysisBroken("%s: no stream-decrypting function found in asconcrypt" % rid)
 
 
-def _explore_status(f, start, env0, stop, avoid, want_ret):
+def _explore_status(f, start, env0, stop, avoid, want_ret, visit=None):
     """walk the CFG from block `start` with the constants env0 (SSA id -> int),
     not entering blocks in `avoid`; returns (arrivals {block in stop: env}, None)
     or, with want_ret, a list of (ret instruction, constant or None, value of the
@@ -824,6 +827,8 @@ def _explore_status(f, start, env0, stop, avoid, want_ret):
         if bname in stop and pred is not None:
             arrivals.setdefault(bname, env)
             continue
+        if visit is not None:
+            visit(b, env)
         for i in b.insts:
             if i.op == "phi":
                 continue
@@ -909,3 +914,74 @@ def rule_entropy_chain(rep, build):
         rep.violation(rid, v.get("instance", "entropy-chain"), v.get("where", ""), v["message"], config="library")
     if not probe.violations:
         rep.instance(rid, n, {"functions": n, "calls_checked": probe.rules["C19.D1"]["instances"]})
+
+# ---------------------------------------------------------------------------
+def rule_ok_only_when_read(rep, m):
+    """D9 (asconsum -c): a listed file that cannot be opened is never reported
+    as OK.  In every function that opens a file with fopen and, on failure,
+    reports it (perror), the paths that continue from that failure branch -
+    explored over the integer phi web with the constants known on the path, up
+    to the next iteration of the enclosing loop or the return - do not reach a
+    printf / puts / fputs whose constant text starts with "OK"."""
+    rid = "C19.D9"
+    rep.rule(rid, "asconsum: after a failed fopen no path of the same iteration prints OK")
+    n = 0
+    for f in m.defined():
+        if not f.srcfile.startswith(repo.REPO):
+            continue
+        oks = set()
+        for c in f.calls():
+            if c.callee in ("printf", "puts", "fputs", "fprintf"):
+                for o in c.ops[:2]:
+                    for gname in ir.globals_in(o):
+                        g = m.globals.get(gname)
+                        if g and g.get("bytes") and bytes.fromhex(g["bytes"]).startswith(b"OK"):
+                            oks.add(c.block.name)
+        if not oks:
+            continue
+        headers = set(lp["header"] for lp in f.d.get("loops", []))
+        for c in f.calls("fopen"):
+            # the branch taken when the result is null and that reports the failure
+            for b in f.blocks:
+                t = b.insts[-1]
+                if t.op != "br" or not t.ops:
+                    continue
+                ci = f.defs.get(t.ops[0]) if ir.is_local(t.ops[0]) else None
+                if ci is None or ci.op != "icmp" or ci.d["pred"] not in ("eq", "ne") or "null" not in ci.ops:
+                    continue
+                other = [o for o in ci.ops if o != "null"][0]
+                if not _same_pointer(f, other, c.id):
+                    continue
+                nullsucc = t.succs[0] if ci.d["pred"] == "eq" else t.succs[1]
+                if not any(i.op == "call" and i.callee == "perror" for i in f.bmap[nullsucc].insts):
+                    continue
+                n += 1
+                reached = []
+
+                def visit(bb, env, reached=reached):
+                    if bb.name in oks:
+                        reached.append(bb.name)
+                _explore_status(f, nullsucc, {}, stop=headers, avoid=set(), want_ret=True, visit=visit)
+                if reached:
+                    okc = [i for i in f.bmap[reached[0]].insts if i.op == "call"][0]
+                    rep.violation(rid, "%s:ok-after-failed-open" % f.name, okc.where(),
+                                  "%s: after fopen fails at %s (reported with perror) a path of the same iteration still reaches the "
+                                  "output of \"OK\": a file that could not be read is reported as verified" % (f.name, c.where()),
+                                  config="asconsum")
+                else:
+                    rep.instance(rid, 1, {"function": f.name, "fopen": c.where()})
+    if n == 0:
+        rep.unproved_item(rid, "no fopen failure branch with an OK report found in asconsum")
+
+
+def _same_pointer(f, v, target, depth=0):
+    if v == target:
+        return True
+    d = f.defs.get(v) if ir.is_local(v) else None
+    if d is None or depth > 6:
+        return False
+    if d.op in ("bitcast",):
+        return _same_pointer(f, d.ops[0], target, depth + 1)
+    if d.op == "phi":
+        return any(_same_pointer(f, x, target, depth + 1) for x, _ in d.d["inc"])
+    return False
